@@ -19,7 +19,8 @@
 (***************************************************************************)
 EXTENDS Naturals, Sequences, FiniteSets, TLC
 
-Tokens == {"w", "u", "e", "s"}
+\* ("E" inside a message: the text quotes the very enhanced code the reply carries)
+Tokens == {"w", "u", "e", "s", "E"}
 
 \* the enhanced-code token the server prepends: "E" (distinct from an "e"
 \* that occurs in the message text; on the wire both look like codes)
@@ -73,7 +74,8 @@ Lines == SeqsOver(Tokens, MaxToks)
 Msgs == SeqsOver(Lines, MaxLines) \ {<<>>}
 
 VARIABLES enh, msg
-Init == enh \in {"set", "unset", "none"} /\ msg \in Msgs
+QuotesOwnCode(m) == \E i \in DOMAIN m : \E j \in DOMAIN m[i] : m[i][j] = "E"
+Init == enh \in {"set", "unset", "none"} /\ msg \in Msgs /\ (enh = "none" => ~QuotesOwnCode(msg))
 Next == UNCHANGED <<enh, msg>>
 
 RoundTripHolds == RoundTrip(enh, msg)
